@@ -118,4 +118,19 @@ theorem httpOneway_total (status : Nat) (body : B64) : ∃ r, httpOneway status 
   · exact ⟨_, rfl⟩
   · exact ⟨_, rfl⟩
 
+theorem httpCall_no_panic (method : Bytes) (status : Nat) (body : B64) : ∀ p, httpCall true method status body ≠ .panic p := by
+  intro p h
+  rcases httpCall_total method status body with ⟨e, he⟩ | ⟨o, ho⟩
+  · rw [he] at h; cases h
+  · rw [ho] at h; cases h
+
+theorem httpReceived_total (dec : Bytes → B64) (method : Bytes) (status : Nat) (got : Option Bytes) :
+    (∃ e, httpReceived dec true method status got = .req e) ∨ (∃ o, httpReceived dec true method status got = .reply o) := by
+  unfold httpReceived
+  split
+  · exact Or.inl ⟨_, rfl⟩
+  · cases got with
+    | none => exact Or.inl ⟨_, rfl⟩
+    | some b => exact httpCall_total method status (dec b)
+
 end FV.Recv4
